@@ -32,6 +32,7 @@ from .common import parallel_map
 RULE = ("cases = environment deltas (synthetic old/new pairs; sequences of real table actions with and without "
         "--force; setup/unsetup on real stacks whose product directories contain blanks and < > | & ; ( )) rendered by "
         "the real eups.app.setup and sourced by dash and bash, plus command texts run by both shells against shEval; "
+        "plus every value of length <= 2 (thorough: 3) over a 14-symbol alphabet of metacharacters; "
         "a delta case is non-trivial when at least one command is emitted, a shell text when it lies in the modelled "
         "fragment and changes the environment; distinct = distinct case digests")
 TRUSTED = ["/bin/dash and /bin/bash as installed (the word-level shell model shEval is compared with both on every run, "
@@ -829,10 +830,32 @@ def gen_case(rng, kind):
     return {"emit": gen_emit, "acts": gen_acts, "stack": gen_stack, "shell": gen_shell}[kind](rng)
 
 
+ENUM_ALPHA = "a/= \t\n<>|&;()'"
+
+
+def enum_cases(maxlen):
+    """Every value of length <= maxlen over a 14-symbol alphabet (the metacharacters, three safe characters and the
+    single quote), each as a new variable; 12 variables per case, next to an untouched caller's environment."""
+    import itertools
+    vals = [""]
+    for n in range(1, maxlen + 1):
+        vals += ["".join(t) for t in itertools.product(ENUM_ALPHA, repeat=n)]
+    out = []
+    for i in range(0, len(vals), 12):
+        new = [["KEEP", "k e e p"]] + [["V%d" % j, v] for j, v in enumerate(vals[i:i + 12])]
+        out.append({"kind": "emit", "old": [["KEEP", "k e e p"], ["GONE", "x"]], "forgotten": [], "new": new, "aliases": [],
+                    "oldAliases": [], "opts": dict(SH_OPTS)})
+    return out
+
+
 def run(ctx):
     cases = corpus_cases()
     ctx.hist("corpus", len(cases))
     evaluate(ctx, cases)
+    en = enum_cases(ctx.n(2, 3))
+    ctx.hist("enumerated-values", sum(len(c["new"]) - 1 for c in en))
+    for i in range(0, len(en), 600):
+        evaluate(ctx, en[i:i + 600])
     budget = [("emit", ctx.n(2400, 60000)), ("acts", ctx.n(1200, 30000)), ("shell", ctx.n(3000, 100000)),
               ("stack", ctx.n(200, 4000))]
     for kind, n in budget:
